@@ -94,4 +94,40 @@ MUTATIONS = [
      'desc': 'gain profile not re-normalised to the effective gain under tilt (first estimate returned)',
      'edits': [('gnpy/core/elements.py', "        return g1st - voa + array(self.interpol_dgt) * dgts3",
                 "        return g1st - voa + array(self.interpol_dgt) * dgts1")]},
+    {'id': 'c05-lumped-twice', 'props': ['C05'], 'tests': 'tests/test_propagation.py',
+     'desc': 'lumped losses applied twice in the no-Raman attenuation profile',
+     'edits': [('gnpy/core/science_utils.py', "        lumped_loss_acc = cumprod(lumped_losses)\n",
+                "        lumped_loss_acc = cumprod(lumped_losses ** 2)\n")]},
+    {'id': 'c05-edfa-pmd-linear', 'props': ['C05'], 'tests': 'tests/test_propagation.py',
+     'desc': 'amplifier PMD added linearly instead of in quadrature',
+     'edits': [('gnpy/core/elements.py', "        spectral_info.pmd = sqrt(spectral_info.pmd ** 2 + self.params.pmd ** 2)",
+                "        spectral_info.pmd = spectral_info.pmd + self.params.pmd")]},
+    {'id': 'c05-short-fibre-no-con-out', 'props': ['C05'], 'tests': 'tests/test_propagation.py',
+     'desc': 'output connector loss skipped for fibres shorter than 2 km',
+     'edits': [('gnpy/core/elements.py', """        attenuation_fiber = stimulated_raman_scattering.loss_profile[:, -1]
+        spectral_info.apply_attenuation_lin(attenuation_fiber)
+
+        # apply the attenuation due to the output connector loss
+        attenuation_out_db = self.params.con_out""", """        attenuation_fiber = stimulated_raman_scattering.loss_profile[:, -1]
+        spectral_info.apply_attenuation_lin(attenuation_fiber)
+
+        # apply the attenuation due to the output connector loss
+        attenuation_out_db = self.params.con_out if self.params.length > 2000 else 0""")]},
+    {'id': 'c05-latency-index', 'props': ['C05'], 'tests': 'tests/test_propagation.py',
+     'desc': 'latency computed with the vacuum speed of light',
+     'edits': [('gnpy/core/parameters.py', "            self._latency = self._length / (c / self._n1)  # s",
+                "            self._latency = self._length / c  # s")]},
+    {'id': 'c05-perturbative-third-order', 'props': ['C05'], 'tests': 'tests/test_science_utils.py',
+     'desc': 'third-order perturbative term loses its 1/2 factor',
+     'edits': [('gnpy/core/science_utils.py', "z_integrand = expz * (gamma2 + 1/2 * gamma1**2)",
+                "z_integrand = expz * (gamma2 + gamma1**2)")]},
+    {'id': 'c05-numerical-lumped-shift', 'props': ['C05'], 'tests': 'tests/test_science_utils.py',
+     'desc': 'numerical Raman solver forgets the lumped loss located on its last step',
+     'edits': [('gnpy/core/science_utils.py', """                power[:, i] = (power[:, i - 1] * (1 + (- alpha + sum(cr * power[:, i - 1], 1)) * dz[i - 1]) *
+                               lumped_losses[i - 1])""", """                power[:, i] = (power[:, i - 1] * (1 + (- alpha + sum(cr * power[:, i - 1], 1)) * dz[i - 1]) *
+                               (lumped_losses[i - 1] if dz[i - 1] > 50 else 1))""")]},
+    {'id': 'c05-roadm-pdl-linear', 'props': ['C05'], 'tests': 'tests/test_roadm_restrictions.py',
+     'desc': 'ROADM PDL added linearly',
+     'edits': [('gnpy/core/elements.py', "        spectral_info.pdl = sqrt(spectral_info.pdl ** 2 + pdl_impairment ** 2)",
+                "        spectral_info.pdl = spectral_info.pdl + pdl_impairment")]},
 ]
